@@ -88,7 +88,7 @@ sys.exit(0)
 
 
 def check_pair(acc: work.Acc, u: Any, v: Any, kind: str, tol: float, label: str,
-               codes: List[str], prelude: str = "", linear_by_run: bool = False) -> None:
+               codes: List[str], prelude: str = "", linear_by_run: bool = False, collect: bool = False) -> None:
     m, k = real(var(kind, "m")), real(var(kind, "k"))
     key = (label, kind)
     o_uv, t_uv, un, _ = chain_term([u, v], kind)
@@ -110,6 +110,14 @@ def check_pair(acc: work.Acc, u: Any, v: Any, kind: str, tol: float, label: str,
                                     replay(rk, cs, max(tol, 1e-9), prelude, kind)))
 
     zero = z3.substitute(t_uv, (var(kind, "m"), z3.IntVal(0) if kind == "int" else z3.RealVal(0)))
+    if collect and kind == "float":
+        one = z3.simplify(z3.substitute(t_uv, (var(kind, "m"), z3.RealVal(1))))
+        if z3.is_rational_value(one) or z3.is_int_value(one):
+            kf = Fraction(one.numerator_as_long(), one.denominator_as_long()) if z3.is_rational_value(one) \
+                else Fraction(one.as_long())
+            if kf != 0:
+                acc.out.setdefault("coeffs", []).append((str(u.dimension), families.show(u), families.show(v),
+                                                         codes[0], codes[1], kf.numerator, kf.denominator, tol))
     ask(zero == 0, "zero-to-zero", "conv(0) != 0", "linear", codes)
     ask(z3.And(z3.Implies(m > 0, t_uv > 0), z3.Implies(m < 0, t_uv < 0)), "sign-preserved",
         "sign not preserved", "linear", codes)
@@ -226,13 +234,15 @@ def worker(task: Tuple) -> Dict[str, Any]:
             lab = "->".join(families.show(u) for u in us)
             codes = [families.code(u) for u in us]
             tol = 1e-5 * orc.degree(*us[:2])
-            if len(us) > 1 and ambiguous(orc, *us):
+            named_pair = len(us) == 2 and all(len(u.factors) == 1 and u.name and u.prefix.base == 0 for u in us)
+            if len(us) > 1 and ambiguous(orc, *us) and not named_pair:
                 acc.count("ambiguous_by_C09")
                 continue
             if len(us) == 1:
                 check_self(acc, us[0], kind, families.show(us[0]), codes[0])
             elif len(us) == 2:
-                check_pair(acc, us[0], us[1], kind, tol, lab, codes, linear_by_run=(i % 16 == 0))
+                check_pair(acc, us[0], us[1], kind, tol, lab, codes, linear_by_run=(i % 16 == 0),
+                           collect=named_pair)
             else:
                 check_triple(acc, us[0], us[1], us[2], kind, 1e-5 * orc.degree(*us), lab, codes)
             if i == 0:
@@ -279,6 +289,66 @@ SYN_TRIPLES = [("La", "Lb", "Lc"), ("Lc", "Ld", "La"), ("La**2", "Aa", "Ab"), ("
                ("En", "Fp*Lb", "Mb*Lb**2/Tb**2"), ("Ki*La", "Lb", "Lc"), ("Aa**-1", "La**-2", "Lb**-2")]
 
 
+def route_matrix(rep: report.Report, coeffs: List[Tuple]) -> None:
+    """Route independence over ALL triples of shipped named units: the factors k_ab come from the
+    symbolic runs of the real in_unit (result = k_ab * m for every m); per ordered pair (a, c) one
+    query asks for a magnitude m and an intermediate b with |k_ab k_bc m - k_ac m| > tol |k_ac m|."""
+    import time as _time
+
+    groups: Dict[str, Dict[Tuple[str, str], Tuple]] = {}
+    for c in coeffs:
+        groups.setdefault(c[0], {})[(c[1], c[2])] = c
+    x = z3.Real("route_m")
+    absx = lambda e: z3.If(e >= 0, e, -e)
+    for dim, K in sorted(groups.items()):
+        units = sorted({a for a, _ in K} | {b for _, b in K})
+        if len(units) < 3:
+            continue
+        S = z3.Solver()
+        S.set("timeout", 20000)
+        bad: List[Tuple[str, str, str]] = []
+        nq = 0
+        t0 = _time.time()
+        for a in units:
+            for c in units:
+                if a == c or (a, c) not in K:
+                    continue
+                kac = Fraction(K[(a, c)][5], K[(a, c)][6])
+                tol = Fraction(K[(a, c)][7])
+                dis = []
+                via = []
+                for b in units:
+                    if b in (a, c) or (a, b) not in K or (b, c) not in K:
+                        continue
+                    kabc = Fraction(K[(a, b)][5], K[(a, b)][6]) * Fraction(K[(b, c)][5], K[(b, c)][6])
+                    # |k_ab k_bc m - k_ac m| > tol |k_ac m|  <=>  (|k_ab k_bc - k_ac| - tol |k_ac|) |m| > 0
+                    dis.append(symnum.q(abs(kabc - kac) - tol * abs(kac)) * x > 0)
+                    via.append((b, kabc))
+                if not dis:
+                    continue
+                nq += 1
+                r = str(S.check(x > 0, z3.Or(*dis)))      # x stands for |m|, m != 0
+                if r == "sat":
+                    bad += [(a, b, c) for b, kabc in via if abs(kabc - kac) > tol * abs(kac)]
+                elif r != "unsat":
+                    rep.ob("unknown", f"routes {a}->*->{c}", ("routes", dim, a, c))
+        rep.merge_stats(queries=nq, solver_s=_time.time() - t0)
+        name = f"route independence over all triples of the {len(units)} named units of {dim} ({nq} queries)"
+        if not bad:
+            rep.ob("unsat", name, ("routes", dim))
+            continue
+        rep.ob("sat", name + f": {len(bad)} triples differ", ("routes", dim))
+        common = set(units)
+        for t in bad:
+            common &= set(t)
+        a, b, c = bad[0]
+        sig = f"C05:routes:{dim}:" + ("|".join(sorted(common)) if common else ",".join(bad[0]))
+        rep.violation(sig, f"{len(bad)} triples of named units of {dim} convert differently via the intermediate "
+                           f"than directly, e.g. {a}->{b}->{c}: {float(Fraction(K[(a, b)][5], K[(a, b)][6]) * Fraction(K[(b, c)][5], K[(b, c)][6]))!r} "
+                           f"against {float(Fraction(K[(a, c)][5], K[(a, c)][6]))!r}; units in every such triple: {sorted(common)}",
+                      replay("triangle", [K[(a, b)][3], K[(a, b)][4], K[(b, c)][4]], max(float(K[(a, c)][7]), 1e-9)))
+
+
 def main(tier: str, selftest_cases: int = 0) -> int:
     rep = report.Report(PID, tier, "other")
     tasks = tasks_for(tier, rep.seed)
@@ -287,6 +357,7 @@ def main(tier: str, selftest_cases: int = 0) -> int:
     results += par.run("props.c05", "worker", [("synthetic", ch) for ch in par.chunks(syn, 4)],
                        maxtasksperchild=1)
     work.merge(rep, results)
+    route_matrix(rep, [c for r in results for c in r.get("coeffs", [])])
     rep.functions.update(cc.FUNCTIONS)
     rep.coverage["items_shipped"] = sum(len(t[1]) for t in tasks)
     rep.coverage["items_synthetic"] = len(syn) * 3
